@@ -14,7 +14,7 @@ I == INSTANCE Instrument WITH Kind <- "spectrometer", MaxHist <- 0, par <- 0, ca
 T == 4                           \* ticks per nm
 VARIABLE c                       \* the case: [lay, W, pad, variant]
 
-Cases == [lay : 1..3, W : {2, 4, 8}, pad : {0, 1, 3}, variant : 1..3]
+Cases == [lay : 1..5, W : {2, 4, 8}, pad : {0, 1, 3}, variant : 1..3]
 
 Edges(lay) == I!Layout(lay)        \* pixel edges in nm
 InstrMin(lay) == I!SetMin({Edges(lay)[k][1] : k \in DOMAIN Edges(lay)})
